@@ -9,7 +9,7 @@ import multiprocessing
 import os
 import time
 
-from . import codec, env
+from . import codec, env, guard
 from . import lru as L
 from .world import build, Cfg
 
@@ -189,7 +189,15 @@ def run(tasks, workers=None, log=print, stop_on_violation=True):
     errors = []
     t0 = time.time()
     with multiprocessing.get_context("fork").Pool(workers) as pool:
-        for task, res, err in pool.imap(_worker, tasks, chunksize=1):
+        results = guard.imap(pool, _worker, tasks)
+        while True:
+            try:
+                task, res, err = next(results)
+            except StopIteration:
+                break
+            except guard.Stuck as st:
+                violations.append({"oracle": "request-hangs", "message": "the pagination chains of this task do not come back: %s" % st.task.describe(), "task": st.task, "seq": []})
+                break
             if err:
                 errors.append("%s: %s" % (task.describe(), err))
                 continue
